@@ -68,17 +68,27 @@ CONC = {
 }
 
 
+# random deeper pipelines (impl -> spec): property -> (quick n, thorough n, ill-formed cold scripts allowed)
+FUZZ = {'C01': (400, 20000, True), 'C02': (400, 20000, False), 'C03': (400, 20000, False), 'C04': (400, 20000, False), 'C05': (400, 20000, True),
+        'C06': (400, 20000, True), 'C07': (400, 20000, True), 'C14': (400, 20000, False), 'C17': (400, 20000, True)}
+
+
+def fz(prop, tier):
+    f = FUZZ.get(prop)
+    return dict(fuzz=(f[0] if tier == 'quick' else f[1]), fuzz_ill=f[2]) if f else {}
+
+
 def run(prop, tier, seed):
     seq = SEQ.get(prop)
     conc = CONC.get(prop)
     if seq and not conc:
         flags, q, t, ref = seq
-        return run_seq_check(prop, tier, flags, q if tier == 'quick' else t, seed, ref)
+        return run_seq_check(prop, tier, flags, q if tier == 'quick' else t, seed, ref, **fz(prop, tier))
     if conc and not seq:
         return run_conc_check(prop, tier, conc[0], seed, '6 ' + prop, models=conc[1] if tier == 'quick' else conc[2])
     if seq and conc:
         flags, q, t, ref = seq
-        rc1, ev1, l1, s1 = run_seq_check(prop, tier, flags, q if tier == 'quick' else t, seed, ref, write=False)
+        rc1, ev1, l1, s1 = run_seq_check(prop, tier, flags, q if tier == 'quick' else t, seed, ref, write=False, **fz(prop, tier))
         rc2, ev2, l2, s2 = run_conc_check(prop, tier, conc[0], seed, '6 ' + prop, models=conc[1] if tier == 'quick' else conc[2], write=False, clear_replays=False)
         ev = ev1
         c1, c2 = ev1['coverage'], ev2['coverage']
